@@ -102,6 +102,22 @@ def _fold_axis(opname, a, axis, keepdims):
     return out
 
 
+def _matmul(a, b):
+    a2 = a.reshape((1,) + a.shape) if a.ndim == 1 else a
+    b2 = b.reshape(b.shape + (1,)) if b.ndim == 1 else b
+    if a2.ndim != 2 or b2.ndim != 2 or a2.shape[1] != b2.shape[0]:
+        raise OracleUndefined("matmul shapes")
+    out = np.empty((a2.shape[0], b2.shape[1]), dtype=object)
+    for i in range(a2.shape[0]):
+        for j in range(b2.shape[1]):
+            out[i, j] = C.fold("add", [a2[i, k] * b2[k, j] for k in range(a2.shape[1])])
+    if a.ndim == 1:
+        out = out[0]
+    if b.ndim == 1:
+        out = out[..., 0]
+    return out
+
+
 def _mean(xs):
     return C.c_truediv(C.fold("add", xs), len(xs))
 
@@ -151,7 +167,7 @@ def _denote(e, env, leaves):
         _, op, a, b = e
         va, vb = denote(a, env, leaves), denote(b, env, leaves)
         if op == "matmul":
-            raise NotImplementedError
+            return _matmul(_raw(va), _raw(vb))
         return _map(C.BINARY[op], va, vb)
     if tag == "reduce":
         _, op, a, names = e
